@@ -1,1 +1,215 @@
-fn main() { eprintln!("engine not built yet"); std::process::exit(2); }
+//! hx_memo -- harness of property C04 (distinct memoized functions never share cached results).
+//!
+//!   hx_memo sigs            T4: one line per memo site of /repo/crates and of this crate
+//!                           (table built at compile time by `hx_memo_probe::scan!()`, inside rustc)
+//!   hx_memo gen|run         engine `samesig` (HX_ENGINE=samesig), line protocol of hx_common
+//!
+//! Requests
+//!   samesig.hist \t call;call;…            call = qid/base/arg,arg,…   (`-` for no argument)
+//!       fresh database, the calls in order;  answer: one returned value per call
+//!   samesig.key \t qid \t base \t args \t key
+//!       fresh database, one call of qid(args), then: is there a derived node whose function key is
+//!       `key` (and these arguments)?  answer: `found <value>` | `missing`
+//!   malformed request: `bad-request`;  a panic: `panic`
+use hx_common::Rng;
+use std::panic::{catch_unwind, AssertUnwindSafe};
+
+mod samesig;
+use samesig::{entry, Entry, TestDatabase, ENTRIES, FAMILIES};
+
+pub struct Site {
+    pub krate: &'static str,
+    pub kind: &'static str,
+    pub root: &'static str,
+    pub file: &'static str,
+    pub module_path: &'static str,
+    pub container: &'static str,
+    pub name: &'static str,
+    pub line: u32,
+    pub col: u32,
+    pub sig: &'static str,
+    pub sig_hash: u64,
+    pub arity: u32,
+    pub db_type: &'static str,
+    pub db_type_local: bool,
+    pub args: &'static str,
+    pub other_attrs: &'static str,
+    pub cfgs: &'static str,
+}
+
+/// digest of every file the scan may read; a change recompiles this crate (see build.rs)
+pub const SCAN_STAMP: &str = include_str!(concat!(env!("OUT_DIR"), "/scan_stamp.txt"));
+
+pub const SCAN: (&[Site], usize) = hx_memo_probe::scan!();
+
+impl Site {
+    pub fn qid(&self) -> String {
+        if self.container.is_empty() {
+            format!("{}::{}", self.module_path, self.name)
+        } else {
+            format!("{}::{}::{}", self.module_path, self.container, self.name)
+        }
+    }
+    /// what `concat!(module_path!(), ":", line!(), ":", column!())` is at the definition
+    pub fn site_text(&self) -> String {
+        format!("{}:{}:{}", self.module_path, self.line, self.col)
+    }
+}
+
+/// The fold of the repaired macro (memo_macro.rs, `MEMO_FN_KEY`): FNV-1a steps over the bytes of the
+/// definition-site text, starting from the signature hash.
+pub fn fnv_fold(start: u64, bytes: &[u8], prime: u64) -> u64 {
+    let mut key = start;
+    for b in bytes {
+        key = (key ^ *b as u64).wrapping_mul(prime);
+    }
+    key
+}
+
+pub const FNV_PRIME: u64 = 0x100000001b3;
+
+fn sigs() {
+    let (sites, nfiles) = SCAN;
+    println!("# {} source files parsed; stamp: {}", nfiles, SCAN_STAMP.trim());
+    for s in sites {
+        println!(
+            "site\tcrate={}\tkind={}\troot={}\tfile={}\tmodule_path={}\tcontainer={}\tname={}\tline={}\tcol={}\tsig={}\tsig_hash={}\tarity={}\tdb_type={}\tdb_type_local={}\targs={}\tother_attrs={}\tcfgs={}",
+            s.krate, s.kind, s.root, s.file, s.module_path, s.container, s.name, s.line, s.col,
+            hx_common::hex(s.sig.as_bytes()), s.sig_hash, s.arity, s.db_type, s.db_type_local,
+            hx_common::hex(s.args.as_bytes()), s.other_attrs, hx_common::hex(s.cfgs.as_bytes())
+        );
+    }
+}
+
+fn own_site(qid: &str) -> Option<&'static Site> {
+    let mut it = SCAN.0.iter().filter(|s| s.krate == "hx_memo" && s.qid() == qid);
+    let first = it.next();
+    if it.next().is_some() {
+        return None;
+    }
+    first
+}
+
+fn fmt_args(a: &[u32]) -> String {
+    if a.is_empty() {
+        "-".to_string()
+    } else {
+        a.iter().map(|x| x.to_string()).collect::<Vec<_>>().join(",")
+    }
+}
+
+fn parse_args(s: &str) -> Option<Vec<u32>> {
+    if s == "-" {
+        return Some(vec![]);
+    }
+    s.split(',').map(|x| if x.is_empty() || !x.bytes().all(|b| b.is_ascii_digit()) || x.len() > 6 { None } else { x.parse().ok() }).collect()
+}
+
+fn gen_call(r: &mut Rng, e: &Entry, maxarg: usize) -> String {
+    let args: Vec<u32> = e.args.iter().map(|_| r.below(maxarg + 1) as u32).collect();
+    format!("{}/{}/{}", e.qid, e.base, fmt_args(&args))
+}
+
+fn gen(r: &mut Rng, _i: u64) -> Vec<String> {
+    let roll = r.below(100);
+    if roll < 3 {
+        // malformed stream
+        let e = r.pick(ENTRIES);
+        let line = match r.below(4) {
+            0 => format!("samesig.hist\thx_memo::samesig::nowhere::f/1/-"),
+            1 => format!("samesig.hist\t{}/{}/x", e.qid, e.base),
+            2 => format!("samesig.hist\t{}/{}/{}", e.qid, e.base, fmt_args(&vec![1; e.args.len() + 1])),
+            _ => format!("samesig.hist\t{};;", gen_call(r, e, 1)),
+        };
+        return vec![line];
+    }
+    if roll < 18 {
+        let e = r.pick(ENTRIES);
+        let s = own_site(e.qid).expect("entry not in the scan table");
+        let args: Vec<u32> = e.args.iter().map(|_| r.below(3) as u32).collect();
+        let key = match r.below(4) {
+            0 => s.sig_hash,                                                  // the unrepaired recipe
+            1 | 2 => fnv_fold(s.sig_hash, s.site_text().as_bytes(), FNV_PRIME), // the repaired recipe
+            _ => fnv_fold(s.sig_hash, s.module_path.as_bytes(), FNV_PRIME),    // neither
+        };
+        return vec![format!("samesig.key\t{}\t{}\t{}\t{}", e.qid, e.base, fmt_args(&args), key)];
+    }
+    let (pool, len, maxarg): (Vec<&Entry>, usize, usize) = if r.chance(3, 5) {
+        let fam = r.below(FAMILIES);
+        (ENTRIES.iter().filter(|e| e.family == fam).collect(), r.range(2, 8), 1)
+    } else {
+        (ENTRIES.iter().collect(), r.range(2, 12), 1)
+    };
+    let calls: Vec<String> = (0..len).map(|_| gen_call(r, *r.clone().pick(&pool), maxarg)).map(|c| { r.next(); c }).collect();
+    vec![format!("samesig.hist\t{}", calls.join(";"))]
+}
+
+fn parse_call(c: &str) -> Option<(&'static Entry, Vec<u32>)> {
+    let p: Vec<&str> = c.split('/').collect();
+    if p.len() != 3 {
+        return None;
+    }
+    let e = entry(p[0])?;
+    if p[1] != e.base.to_string() {
+        return None;
+    }
+    let args = parse_args(p[2])?;
+    if args.len() != e.args.len() {
+        return None;
+    }
+    Some((e, args))
+}
+
+fn run(f: &[&str]) -> String {
+    match f {
+        ["samesig.hist", calls] => {
+            let parsed: Option<Vec<_>> = calls.split(';').map(parse_call).collect();
+            let Some(parsed) = parsed else { return "bad-request".to_string() };
+            let r = catch_unwind(AssertUnwindSafe(|| {
+                let db = TestDatabase::default();
+                parsed.iter().map(|(e, a)| (e.call)(&db, a).to_string()).collect::<Vec<_>>()
+            }));
+            match r {
+                Ok(v) => v.join("\t"),
+                Err(_) => "panic".to_string(),
+            }
+        }
+        ["samesig.key", qid, base, args, key] => {
+            let Some((e, a)) = parse_call(&format!("{}/{}/{}", qid, base, args)) else { return "bad-request".to_string() };
+            let Ok(key) = key.parse::<u64>() else { return "bad-request".to_string() };
+            let r = catch_unwind(AssertUnwindSafe(|| {
+                let db = TestDatabase::default();
+                let _ = (e.call)(&db, &a);
+                samesig::probe_key(&db, e, &a, key)
+            }));
+            match r {
+                Ok(Some(v)) => format!("found\t{}", v),
+                Ok(None) => "missing".to_string(),
+                Err(_) => "panic".to_string(),
+            }
+        }
+        _ => "bad-request".to_string(),
+    }
+}
+
+fn main() {
+    let args: Vec<String> = std::env::args().collect();
+    if args.get(1).map(|s| s.as_str()) == Some("sigs") {
+        sigs();
+        return;
+    }
+    match std::env::var("HX_ENGINE").as_deref() {
+        Ok("samesig") | Err(_) => {}
+        Ok(other) => {
+            eprintln!("hx_memo: unknown engine {}", other);
+            std::process::exit(2);
+        }
+    }
+    for e in ENTRIES {
+        if own_site(e.qid).is_none() {
+            eprintln!("hx_memo: function {} of the samesig engine is not (uniquely) in the T4 scan table", e.qid);
+            std::process::exit(3);
+        }
+    }
+    hx_common::main_loop(&gen, &mut run);
+}
